@@ -267,6 +267,14 @@ func c13Gen(t *tape.Tape, ownProp func(string) bool) (prelude, recv string, step
 				steps = append(steps, c13Step{"lit-func-value", fmt.Sprintf(".{|x| S(%d); {|y| y + x}}", sl), sl})
 				break
 			}
+			if i == k-1 && t.Chance(1, 4) {
+				// a step whose result answers questions about itself in its own way (its own `nil?`,
+				// `B`, `S`; not `==`: `val?` is documented as `.val != nil`, and `!=` asks the value) or does not descend from Obj at all: the accessors report the value
+				// that is held, they do not interview it
+				ov := []string{"{nil?: true, a: 1}", "BaseObj.bear({a: 1})", "{B: false, a: 2}", "{S: \"text\", repr: \"r\", a: 3}"}[t.Intn(4)]
+				steps = append(steps, c13Step{"lit-odd-object", fmt.Sprintf(".{|x| S(%d); %s}", sl, ov), sl})
+				break
+			}
 			if i == k-1 && t.Chance(1, 3) {
 				// a step that SUCCEEDS and whose result is an error taken out of another chain as a
 				// value (`.err`, `.A[1]`): a value like any other, not a failure of this step
